@@ -656,7 +656,7 @@ def pred_c08(ops, impl):
             target = None
             if items and len(items) > 2 and isinstance(items[2], list) and items[2] and items[2][0] == "exec":
                 sc = items[2][2] if len(items[2]) > 2 else []
-                if isinstance(sc, list) and all(isinstance(a, list) and a and a[0] in ("w", "rm", "rd", "rng", "fail") for a in sc):
+                if isinstance(sc, list) and all(isinstance(a, list) and a and a[0] in ("w", "rm", "rd", "rng", "rngk", "fail") for a in sc):
                     target = items[2][1]
         elif t[0] == "wdump":
             c = t[1]
